@@ -7,9 +7,12 @@ cd $WT || exit 2
 {
   echo "== state: $(git -C $WT diff --stat -- libs | tail -1)"
   if git -C $WT apply --check -R patch.diff 2>/dev/null; then echo "patch is applied"; else git -C $WT apply patch.diff && echo "patch applied now"; fi
+  [ -f $WT/_b/build.ninja ] && ninja -j8 -C $WT/_b pika > /dev/null 2>&1
   echo "== demo WITH the change"; ( cd demo && timeout 1800 bash ./run.sh ) > $OUT.with 2>&1; echo "exit=$?"; tail -5 $OUT.with
   git -C $WT apply -R patch.diff && echo "patch reverted"
+  [ -f $WT/_b/build.ninja ] && ninja -j8 -C $WT/_b pika > /dev/null 2>&1
   echo "== demo WITHOUT the change"; ( cd demo && timeout 1800 bash ./run.sh ) > $OUT.without 2>&1; echo "exit=$?"; tail -5 $OUT.without
   git -C $WT apply patch.diff && echo "patch re-applied"
+  [ -f $WT/_b/build.ninja ] && ninja -j8 -C $WT/_b pika > /dev/null 2>&1
 } > $OUT 2>&1
 grep -E "^exit=|^==" $OUT
